@@ -422,6 +422,7 @@ func intLeaves() []*V {
 
 func fltLeaves() []*V {
 	return []*V{
+		vFlt(0),
 		vFlt(0.5),
 		vFlt(math.Copysign(0, -1)),
 		vFlt(math.Ldexp(1, -24)),                   // smallest half precision subnormal
